@@ -35,7 +35,7 @@ package measurements
 //@   guarded mu: value
 
 //@ func (*SingleMeasurement).Add
-//@   ensures[C18] latest: m.value == value && ret0 == value && ret1
+//@   ensures[C07,C08,C18] latest: m.value == value && ret0 == value && ret1
 //@   assigns m.value
 //@   owns[C17]
 
